@@ -74,6 +74,6 @@ def run_p(seed, tier, replay=None):
 
 def run(seed, tier, replay=None):
     from props import mix, tim
-    return mix.merge(run_p(seed, tier, replay), tim.run_family("cancel", seed, tier, 5, 30))
+    return mix.merge(run_p(seed, tier, replay), tim.run_family("cancel", seed, tier, 7, 35))
 
 KNOWN_MATCHERS = {}
